@@ -41,6 +41,9 @@ def parseOp (w : String) : Option Op :=
     | "aminusb" => some (.set .aminusb (parseArr p.2))
     | "occsa" => (parseArr p.2).map .setOccsa
     | "occsb" => (parseArr p.2).map .setOccsb
+    | "kind" => some (.setKind (parseKind p.2))
+    | "norba" => some (.setNorba (parseOptNat p.2))
+    | "norbb" => some (.setNorbb (parseOptNat p.2))
     | _ => none
   else none
 
@@ -48,7 +51,11 @@ def showE {α : Type} (f : α → String) : Except Err (Option α) → String
   | .ok v => showOpt f v
   | .error e => "!" ++ e.toString
 
+def showKind : Kind → String
+  | .restricted => "r" | .unrestricted => "u" | .generalized => "g" | .other => "x"
+
 def showObs (m : MO) : String :=
+  s!"kind={showKind m.kind};na={showOpt toString m.norba};nb={showOpt toString m.norbb};" ++
   s!"occs={showOpt showArr m.occs};ab={showOpt showArr m.aminusb};oa={showE showArr (occsa m)};" ++
   s!"ob={showE showArr (occsb m)};ne={showOpt showRat (nelec m)};sp={showE showRat (spinpol m)};" ++
   s!"norb={showOpt toString (norb m)};ca={showE showArr (view m false m.coeffs)};cb={showE showArr (view m true m.coeffs)};" ++
